@@ -31,7 +31,7 @@ def main():
         os.makedirs('/tmp/sv', exist_ok=True)
         rc, out = sh('git -C /repo worktree add %s HEAD' % wt)
         try:
-            for k in (1, 2):
+            for k in [int(x) for x in os.environ.get("SEED_KS", "1,2").split(",")]:
                 sd = os.path.join(STAGE, '%s-%d' % (pid, k))
                 if not os.path.exists(os.path.join(sd, 'patch.diff')):
                     continue
